@@ -457,6 +457,27 @@ class NC:
             return res
         return blk(0)
 
+    def reachable(self, f, ctx):
+        """blocks of f that some path from the entry can reach in frame ctx: edges whose condition is definitely false are not taken"""
+        edges, _, _, _ = self.info(f)
+        cfg = f.cfg
+        seen = {0}
+        work = [0]
+        while work:
+            b = work.pop()
+            conds = {}
+            for d, g in edges.get(b, []):
+                conds.setdefault(d, []).append(g)
+            for s_ in cfg.succ[b]:
+                gl = conds.get(s_)
+                # several arms of one switch may lead to the same block: it is entered when any of them holds
+                if gl is not None and all(guard_value(g, ctx) is False for g in gl):
+                    continue
+                if s_ not in seen:
+                    seen.add(s_)
+                    work.append(s_)
+        return seen
+
     def definitely_returns(self, f, ctx):
         """True when, in frame ctx, one path from the entry of f to a return is certain: every branch condition on it is decided and
         holds, every in-crate callee on it certainly returns, every other callee is a total f64 method or a range test, and the path
